@@ -273,7 +273,7 @@ impl<'a> IRCodeGen<'a> {
 
             E::If { branches, .. } => {
                 let out = self.var();
-                let code = branches
+                let code: Vec<IR> = branches
                     .iter()
                     .map(|IfBranch { condition, body, span: _ }| {
                         if let Some(cond) = condition {
@@ -289,7 +289,13 @@ impl<'a> IRCodeGen<'a> {
                     .flatten()
                     .collect::<Vec<_>>();
                 (
-                    [code, branches.iter().map(|_| IR::End).collect()].concat(),
+                    [
+                        // Declared, so every evaluation has its own result variable.
+                        vec![IR::Define(out)],
+                        code,
+                        branches.iter().map(|_| IR::End).collect(),
+                    ]
+                    .concat(),
                     out,
                 )
             }
@@ -310,7 +316,7 @@ impl<'a> IRCodeGen<'a> {
                         let cmp = self.var();
                         [
                             if let Some(var) = variable {
-                                vec![IR::Assign(Var(*var), value)]
+                                vec![IR::Define(Var(*var)), IR::Assign(Var(*var), value)]
                             } else {
                                 Vec::new()
                             },
@@ -339,6 +345,8 @@ impl<'a> IRCodeGen<'a> {
                     [
                         cops,
                         vec![
+                            // Declared, so every evaluation has its own result variable.
+                            IR::Define(out),
                             IR::Int(tag_index, 1),
                             IR::Index(tag, c, tag_index),
                             IR::Int(value_index, 2),
@@ -499,7 +507,7 @@ impl<'a> IRCodeGen<'a> {
                     pre_code,
                     code,
                     vec![match op {
-                        BinOp::Nop => IR::Assign(res, var),
+                        BinOp::Nop => IR::Copy(res, var),
                         BinOp::Add => IR::Add(res, current, var),
                         BinOp::Sub => IR::Sub(res, current, var),
                         BinOp::Mul => IR::Mul(res, current, var),
